@@ -43,7 +43,7 @@ def build_sources(case, rnd, nvariants, plain_first=True):
     return out
 
 
-def replay(cases, rnd, nvariants=2, chunk=150, want_extra=None, main="a", jobs=None, units=None, prefix=True):
+def replay(cases, rnd, nvariants=2, chunk=150, want_extra=None, main="a", jobs=None, units=None, prefix=True, dev=False):
     """cases: [{files, data, tree, steps?, scripts?}] (spec JSON).  Returns a list of records
     {case, variant, sources, problems, panic, warn, bkeys} — one per (case, variant).
     `units` (optional): pre-built [{ci, v, srcs}] instead of fresh concretisations."""
@@ -68,7 +68,7 @@ def replay(cases, rnd, nvariants=2, chunk=150, want_extra=None, main="a", jobs=N
             for p, t in case_scripts(cases[u["ci"]]):
                 scripts.append([pre + p, t])
             post += case_post_ops(cases[u["ci"]], pre)
-        vcases.append({"id": k, "files": files, "scripts": scripts, "post_ops": post, "want": ["groups"] + (want_extra or [])})
+        vcases.append({"id": k, "files": files, "scripts": scripts, "post_ops": post, "dev": dev, "want": ["groups"] + (want_extra or [])})
     vres = vlib.run_vh("tmpl", vcases, jobs=jobs)
     # a panic or an unparsable bundle must not hide the rest of its chunk: retry such chunks unit by unit
     retry = []
@@ -83,7 +83,7 @@ def replay(cases, rnd, nvariants=2, chunk=150, want_extra=None, main="a", jobs=N
                 files = [[u["pre"] + p, t] for p, t in u["srcs"]]
                 scripts = [[u["pre"] + p, t] for p, t in case_scripts(cases[u["ci"]])]
                 new_chunks.append([u])
-                new_vcases.append({"id": len(chunks) + len(new_chunks), "files": files, "scripts": scripts,
+                new_vcases.append({"id": len(chunks) + len(new_chunks), "files": files, "scripts": scripts, "dev": dev,
                                    "post_ops": case_post_ops(cases[u["ci"]], u["pre"]), "want": ["groups"] + (want_extra or [])})
         nres = vlib.run_vh("tmpl", new_vcases, jobs=jobs)
         chunks = [c for k, c in enumerate(chunks) if k not in retry] + new_chunks
@@ -102,7 +102,7 @@ def replay(cases, rnd, nvariants=2, chunk=150, want_extra=None, main="a", jobs=N
             c = cases[u["ci"]]
             jcases.append({"id": len(records), "path": u["pre"] + c.get("main", main), "data": c["data"], "tree": c.get("tree"),
                            "steps": c.get("steps", []), "tmpl": c.get("tmpl", ""), "paths": c.get("paths", False), "mergeText": c.get("mergeText", False),
-                           "pre": u["pre"]})
+                           "pre": u["pre"], "dev": dev})
             ws = []
             for p, _ in u["srcs"]:
                 ws += warn_by_path.get(u["pre"] + p, [])
